@@ -577,6 +577,10 @@ func rnsLabel(rc *RunCtx, n int) string {
 	if n >= 3 && rc.Chance(0.2) {
 		b[1+rc.Intn(n-2)] = "-_"[rc.Intn(2)]
 	}
+	if n >= 3 && rc.Chance(0.1) {
+		// a label that contains the letters of a TLD ("ibcfan.jkl", "myjkl.ibc"): the TLD is the suffix, nothing else
+		copy(b[rc.Intn(n-2):], rc.PickS([]string{"ibc", "jkl"}))
+	}
 	return string(b)
 }
 
